@@ -226,37 +226,36 @@ Proof. intros HI Hx Hb. destruct (Inv_alloc _ _ _ _ HI Hx Hb) as (H1 & _ & H3 & 
   (** ** The strengthened invariant *)
 
   (** extra per-object facts (none of them is in [Inv.inv_b]) *)
-  Record ObjX (m : machine) (o : id) (x : obj) : Prop := {
+  Record ObjXp (ind sd : bool) (x : obj) : Prop := {
     (* (b) a value under construction (new_cyclic) has no strong handle yet *)
     ox_uninit : o_box x = BAlloc -> o_vst x = VUninit ->
                 h_rc (o_hdr x) = 0 /\ is_dropped (o_hdr x) = false;
     (* (b2) a value destroyed through Cc::drop has strong count 0 for ever *)
-    ox_dying : o_box x = BAlloc -> dying x = true -> inD m o = false -> h_rc (o_hdr x) = 0;
+    ox_dying : o_box x = BAlloc -> dying x = true -> ind = false -> h_rc (o_hdr x) = 0;
     (* (c) members of the dying set not yet marked dropped belong to a running drop pass *)
-    ox_dead : k_weak K = true -> inD m o = true -> o_box x = BAlloc -> is_dropped (o_hdr x) = false ->
-              h_mark (o_hdr x) = IL /\ st_dropping m = true;
+    ox_dead : k_weak K = true -> ind = true -> o_box x = BAlloc -> is_dropped (o_hdr x) = false ->
+              h_mark (o_hdr x) = IL /\ sd = true;
     (* without weak-ptrs there are no side records *)
     ox_noweak : k_weak K = false -> o_side x = None;
     (* a CleanerMap holds no handles *)
     ox_map : o_ismap x = true -> o_fields x = [] /\ o_cleaner x = None /\ o_wfields x = [];
-    (* a dropped value holds no strong handles *)
-    ox_dropped : o_vst x = VDropped ->
-                 (forall j t, o_fields x !! j = Some (Some t) -> False) /\ o_cleaner x = None;
     (* the dying set only contains boxes that were allocated with an initialised value *)
-    ox_indead : inD m o = true -> o_box x <> BNotYet /\ o_vst x <> VMoved /\ o_vst x <> VUninit;
+    ox_indead : ind = true -> o_box x <> BNotYet /\ o_vst x <> VMoved /\ o_vst x <> VUninit;
   }.
+  (** [ind]: membership of the object in the dying set, [sd]: the [dropping] flag *)
+  Definition ObjX (m : machine) (o : id) (x : obj) : Prop := ObjXp (inD m o) (st_dropping m) x.
 
   (** the conjunct for a handle location ([Inv.loc_ok] + three extra facts: fields, slots and
       the bag never point to a CleanerMap; a location pointing into the dying set lies inside
-      the dying set; a value whose destruction is running only points to dying objects that
-      are still linked in the running drop pass) *)
+      the dying set and not inside a dropped value; a value whose destruction is running only
+      points to dying objects that are still linked in the running drop pass) *)
   Definition LocOk (m : machine) (h : option id) (c : bool) (t : id) : Prop :=
     exists xt, get m t = Some xt /\ o_box xt = BAlloc /\ (c = false -> o_ismap xt = false) /\
       match h with
       | None => o_vst xt = VLive /\ inD m t = false
       | Some p => forall xp, get m p = Some xp ->
           (o_vst xp = VLive -> inD m p = false -> o_vst xt = VLive /\ inD m t = false) /\
-          (inD m t = true -> inD m p = true /\ (o_vst xp = VDropping -> marked xt = true))
+          (inD m t = true -> inD m p = true /\ o_vst xp <> VDropped /\ (o_vst xp = VDropping -> marked xt = true))
       end.
 
   Definition wnomap (m : machine) (w : option wref) : Prop :=
@@ -282,6 +281,8 @@ Proof. intros HI Hx Hb. destruct (Inv_alloc _ _ _ _ HI Hx Hb) as (H1 & _ & H3 & 
     sv_wslots : forall i w, wslots m !! i = Some w -> wnomap m w;
     sv_wparam : forall w, w ∈ wparam m -> wnomap m (Some w);
     sv_wfields : forall p xp j w, get m p = Some xp -> o_wfields xp !! j = Some w -> wnomap m w;
+    (* every Weak handle points to an object of the heap *)
+    sv_wex : forall o, (0 < wrefs m o + cnt_wr o W)%nat -> is_Some (get m o);
   }.
 
   Definition NoBad (m : machine) : Prop := no_badU m = true.
@@ -300,14 +301,16 @@ Proof. intros HI Hx Hb. destruct (Inv_alloc _ _ _ _ HI Hx Hb) as (H1 & _ & H3 & 
     of_dropped : o_vst x = VDropped -> o_vst x' = VDropped;
     of_box1 : o_box x <> BNotYet -> o_box x' <> BNotYet;
     of_box2 : o_box x = BFreed -> o_box x' = BFreed;
-    (* a value that never got a box is not touched (except by its own drop) *)
-    of_notyet : o_box x = BNotYet -> ex <> Some o -> x' = x;
+    (* a value that never got a box is not touched (except by its own drop glue and Drop script) *)
+    of_notyet : o_box x = BNotYet -> o_vst x <> VDropping -> ex <> Some o -> x' = x;
     (* a value whose destruction is running is only touched by its own drop glue *)
     of_dropping : o_vst x = VDropping -> ex <> Some o ->
                   o_vst x' = VDropping /\ o_fields x' = o_fields x /\ o_cleaner x' = o_cleaner x /\
                   o_box x' = o_box x /\ (inD m' o = true -> inD m o = true);
-    (* no list mark appears on an existing object *)
-    of_unmarked : marked x = false -> marked x' = false;
+    (* a value destruction that starts inside the call is complete when the call returns *)
+    of_nodropping : ex <> Some o -> o_vst x' = VDropping -> o_vst x = VDropping;
+    (* no list mark appears on an existing object (a freed box keeps its last mark) *)
+    of_unmarked : marked x = false -> o_box x' <> BFreed -> marked x' = false;
     of_prot : ex <> Some o -> o_box x = BAlloc -> protected E m o x ->
               o_box x' = BAlloc /\ o_vst x' = o_vst x /\ (inD m' o = true -> inD m o = true) /\
               (marked x = true -> st_collecting m = true -> h_mark (o_hdr x') = h_mark (o_hdr x));
@@ -317,8 +320,8 @@ Proof. intros HI Hx Hb. destruct (Inv_alloc _ _ _ _ HI Hx Hb) as (H1 & _ & H3 & 
     fr_coll : st_collecting m' = st_collecting m;
     fr_dead : forall o, inD m o = true -> inD m' o = true;
     fr_obj : forall o x, get m o = Some x -> exists x', get m' o = Some x' /\ ObjFr E ex m m' o x x';
-    (* the not-yet-dropped members of the dying set can only become fewer *)
-    fr_undropped : forall o x', get m' o = Some x' -> inD m' o = true -> o_box x' = BAlloc ->
+    (* (weak-ptrs) the members of the dying set not yet marked dropped can only become fewer *)
+    fr_undropped : k_weak K = true -> forall o x', get m' o = Some x' -> inD m' o = true -> o_box x' = BAlloc ->
                    is_dropped (o_hdr x') = false ->
                    exists x, get m o = Some x /\ inD m o = true /\ o_box x = BAlloc /\
                              is_dropped (o_hdr x) = false;
@@ -340,7 +343,8 @@ Proof. intros HI Hx Hb. destruct (Inv_alloc _ _ _ _ HI Hx Hb) as (H1 & _ & H3 & 
   Definition loc_valid (m : machine) (r : rloc) : Prop :=
     match r with
     | RSlot i => (i < nslots)%nat
-    | RField p j => exists x, get m p = Some x /\ (j < length (o_fields x))%nat /\ o_box x <> BNotYet
+    | RField p j => exists x, get m p = Some x /\ (j < length (o_fields x))%nat /\ o_box x <> BNotYet /\
+                               o_vst x <> VDropping
     end /\ forall t, read_loc r m = Some t -> own_ok m t.
 
   Definition self_ok (E : list id) (self : option id) (cs : list cmd) (m : machine) : Prop :=
@@ -348,7 +352,7 @@ Proof. intros HI Hx Hb. destruct (Inv_alloc _ _ _ _ HI Hx Hb) as (H1 & _ & H3 & 
     | None => True
     | Some g => (exists x, get m g = Some x /\ o_box x = BAlloc /\ o_vst x = VLive /\
                            inD m g = false /\ o_ismap x = false /\ protected E m g x)
-                \/ forallb cmd_no_self cs = true
+                \/ (forallb cmd_no_self cs = true /\ exists x, get m g = Some x /\ o_vst x = VDropping)
     end.
 
   Definition fields_marked (m : machine) (x : obj) : Prop :=
@@ -393,9 +397,16 @@ Proof. intros HI Hx Hb. destruct (Inv_alloc _ _ _ _ HI Hx Hb) as (H1 & _ & H3 & 
         end
       end.
 
+    (** dropping a CleanerMap without occupied slots runs no user code: only the map changes *)
+    Definition only_touches (o : id) (m m' : machine) : Prop := forall p, p <> o -> get m' p = get m p.
+    Definition quiet_map (o : id) (m m' : machine) : Prop :=
+      forall x, get m o = Some x -> o_ismap x = true -> o_mslots x = [] -> only_touches o m m'.
+
     Definition post_own (c : call) (m m' : machine) : Prop :=
       match c with
+      | KDropCc o => quiet_map o m m'
       | KDropValue o =>
+        quiet_map o m m' /\
         exists x x', get m o = Some x /\ get m' o = Some x' /\ o_vst x' = VDropped /\
                      o_box x' = o_box x /\ (inD m' o = true -> inD m o = true)
       | KDropFields o j =>
@@ -405,6 +416,7 @@ Proof. intros HI Hx Hb. destruct (Inv_alloc _ _ _ _ HI Hx Hb) as (H1 & _ & H3 & 
                      (forall i t, (j <= i)%nat -> o_fields x' !! i = Some (Some t) -> False) /\
                      o_cleaner x' = None
       | KDropMapSlots o j =>
+        (forall x, get m o = Some x -> o_mslots x !! j = None -> only_touches o m m') /\
         exists x x', get m o = Some x /\ get m' o = Some x' /\ o_vst x' = VDropping /\
                      o_box x' = o_box x /\ (inD m' o = true -> inD m o = true) /\
                      o_fields x' = o_fields x /\ o_cleaner x' = o_cleaner x
